@@ -82,6 +82,7 @@ class Registers:
     def __init__(self):
         self._R = {}
         self.changed_registers = [False] * 16
+        self.itstate_restored = False
         for register in RName:
             self._R[register] = 0
         self.cpsr = CPSR()
@@ -466,11 +467,13 @@ class Registers:
             self.cpsr.value = set_substring(self.cpsr.value, 31, 27, substring(value, 31, 27))
             if is_excp_return:
                 self.cpsr.value = set_substring(self.cpsr.value, 26, 24, substring(value, 26, 24))
+                self.itstate_restored = True
         if bit_at(bytemask, 2):
             self.cpsr.value = set_substring(self.cpsr.value, 19, 16, substring(value, 19, 16))
         if bit_at(bytemask, 1):
             if is_excp_return:
                 self.cpsr.value = set_substring(self.cpsr.value, 15, 10, substring(value, 15, 10))
+                self.itstate_restored = True
             self.cpsr.value = set_bit_at(self.cpsr.value, 9, bit_at(value, 9))
             if privileged and (self.is_secure() or self.scr.aw or have_virt_ext()):
                 self.cpsr.value = set_bit_at(self.cpsr.value, 8, bit_at(value, 8))
